@@ -21,6 +21,8 @@ func handle(line string) string {
 		return runC06(line)
 	case "grain":
 		return runC31(line)
+	case "sys":
+		return runC17(line)
 	}
 	return "bad-case"
 }
